@@ -40,7 +40,7 @@ type BatchCfg struct {
 	ExecS   string `json:"execS"` // res | any | absent
 	HasPost bool   `json:"hasPost"`
 	Shape   string `json:"shape"` // results | anys | typed | single | nil
-	Build   string `json:"build,omitempty"`
+	Build   string `json:"build,omitempty"` // option | builder | bare (run the *BatchNode inside the builder)
 }
 
 type Conn struct {
@@ -603,7 +603,12 @@ func (e *runtimeEnv) buildBatch(id int, cfg *BatchCfg) flyt.Node {
 	rt := &nodeRT{env: e, id: id, visit: -1}
 	e.rts[id] = rt
 	b := &batchImpl{rt: rt, cfg: cfg, attempts: map[[2]int]int{}, itemTok: map[int][]int{}}
-	return e.buildBatchWith(b)
+	bb := e.buildBatchWith(b)
+	if cfg.Build == "bare" {
+		// flyt.Run also accepts the bare *BatchNode (without the builder wrapper)
+		return bb.BatchNode
+	}
+	return bb
 }
 
 func (e *runtimeEnv) buildBatchWith(b *batchImpl) *flyt.BatchNodeBuilder {
